@@ -266,3 +266,67 @@ func ruleFormatPadding(w *World, r *RuleResult) {
 		r.ok(key, w.pos(f.Pos()), fmt.Sprintf("%d padding computations, each width − len(sign written) − len(buffer written)", len(pads)), true)
 	}
 }
+
+func init() {
+	register(&Rule{ID: "C14.R8", Min: 1,
+		Text: "zero padding goes between the sign and the digits (as fmt does for numbers): every write of a padding text that can be \"0\" is preceded on every path by the write of the sign",
+		Run:  ruleZeroPadAfterSign})
+}
+
+func ruleZeroPadAfterSign(w *World, r *RuleResult) {
+	f := w.fn("(*Decimal).Format")
+	if f == nil {
+		r.anchorMissing("(*Decimal).Format")
+		return
+	}
+	mayBeZero := func(v ssa.Value) bool {
+		seen := map[ssa.Value]bool{}
+		var walk func(v ssa.Value) bool
+		walk = func(v ssa.Value) bool {
+			if seen[v] {
+				return false
+			}
+			seen[v] = true
+			switch x := v.(type) {
+			case *ssa.Const:
+				s, ok := strConst(x)
+				return ok && s == "0"
+			case *ssa.Phi:
+				for _, e := range x.Edges {
+					if walk(e) {
+						return true
+					}
+				}
+			}
+			return false
+		}
+		return walk(v)
+	}
+	isSignWrite := func(in ssa.Instruction) bool {
+		c, ok := in.(*ssa.Call)
+		if !ok || w.calleeName(c) != "writeMultiple" || len(c.Common().Args) != 3 {
+			return false
+		}
+		k, isK := c.Common().Args[2].(*ssa.Const)
+		return isK && ci(k) == 1
+	}
+	n := 0
+	for _, c := range w.callsTo(f, "writeMultiple") {
+		if len(c.Common().Args) != 3 || isSignWrite(c) || !mayBeZero(c.Common().Args[1]) {
+			continue
+		}
+		n++
+		key := "(*Decimal).Format | zero padding after the sign"
+		if n > 1 {
+			key = fmt.Sprintf("%s #%d", key, n)
+		}
+		if seenBefore(c, isSignWrite) {
+			r.ok(key, w.instrPos(c), "the sign is written before the zeros on every path", true)
+		} else {
+			r.bad(key, w.instrPos(c), "zeros can be written before the sign: %010v of -1.5 gives 000000-1.5 instead of -0000001.5")
+		}
+	}
+	if n == 0 {
+		r.ok("(*Decimal).Format | zero padding after the sign", w.pos(f.Pos()), "no write of a \"0\" padding found: this shape is not decided", false)
+	}
+}
